@@ -677,6 +677,7 @@ class StrainEnergy:
         self._unrotated_cPrec_4th = np.zeros((3,3,3,3))
         self.rotation = np.eye(3)
         self.rotationPrec = np.eye(3)
+        self._unrotated_appliedStress = np.zeros((3,3))
         
         #Cached values for calculating equilibrium aspect ratio
         self.ifmethod = 1
@@ -894,9 +895,11 @@ class StrainEnergy:
             3x3 rotation matrix
         '''
         self.rotation = np.array(rot)
+        self._updateIfElasticTensorSet()
 
     def setRotationPrecipitate(self, rot):
         self.rotationPrec = np.array(rot)
+        self._updateIfElasticTensorSet()
 
     def setEigenstrain(self, strain):
         '''
@@ -965,6 +968,8 @@ class StrainEnergy:
             self.params.appliedStress = stress
         else:
             raise ValueError("Applied stress must be scalar, 3-length vector of 3x3 matrix")
+        self._unrotated_appliedStress = self.params.appliedStress
+        self._updateIfElasticTensorSet()
 
     def _computeAppliedStrain(self, cM2, stress):
         '''
@@ -977,6 +982,15 @@ class StrainEnergy:
             return convertVecTo2rankTensor(flatStrain)
         else:
             return np.zeros((3,3))
+
+    def _updateIfElasticTensorSet(self):
+        '''
+        Rotations and applied stress may be supplied before or after the elastic tensors
+        If the matrix tensor is not set yet, update() will be called once it is
+            (update() without elastic tensor resets the shape to a constant strain energy)
+        '''
+        if self.unrotated_cMatrix_4th.any():
+            self.update()
 
     def update(self):
         # If matrix elastic constants are set, then fill parameters
@@ -998,7 +1012,7 @@ class StrainEnergy:
                 self.params.cPrec_4th = self.params.cMatrix_4th
                 self.params.cPrec_2nd = self.params.cMatrix_2nd
 
-            self.params.appliedStress = rotateRank2Tensor(self.rotation, self.params.appliedStress)
+            self.params.appliedStress = rotateRank2Tensor(self.rotation, self._unrotated_appliedStress)
             self.params.appliedStrain = self._computeAppliedStrain(self.params.cMatrix_2nd, self.params.appliedStress)
 
         # If matrix elastic constants are not set, then default to constant strain energy
